@@ -3,8 +3,9 @@ import os
 
 import common as C
 
-PROP_FILES = ["Props/C03.v"]
-OBLIG_FILES = ["Oblig/C03Obl.v", "Model/ArithFacts.v", "Model/ArithTable.v"]
+PROP_FILES = ["Props/C03.v", "Props/C03General.v"]
+OBLIG_FILES = ["Oblig/C03Obl.v", "Model/ArithFacts.v", "Model/ArithTable.v",
+               "Oblig/C03GenObl.v", "Model/ArithGenFacts.v"]
 
 
 def build(ctx, props=PROP_FILES, obligs=OBLIG_FILES):
@@ -77,6 +78,44 @@ def correspondence(ctx, binary, label, sub, extra):
     return n
 
 
+def general_correspondence(ctx):
+    """The GENERAL statements of Props/C03General.v (coq/Model/ArithGen.v, extracted): the declarative
+    general totals (units digit / ADV codes 81..88 / codes of the other family in neither total) and
+    the general hash (sum of atoi(aba8 RDFI) rem 10^10, closed form on digit strings, number in the
+    written 8 column field) against calculateBatchAmounts / calculateADVBatchAmounts /
+    IATBatch.calculateBatchAmounts / calculateEntryHash / aba8 / RDFIIdentificationField on batches
+    re-coded with arbitrary accepted transaction codes and arbitrary routing strings."""
+    ok, out = C.build_ocaml("c03x")
+    ctx.log("ocaml c03x", out[-3000:])
+    if not ok:
+        ctx.diag.append("extracted general C03 specification does not build: " + out[-600:])
+        return
+    d = os.path.join(ctx.rundir, "corrgen")
+    os.makedirs(d, exist_ok=True)
+    rc, out = C.sh([os.path.join(C.BIN, "c03x"), "corr", "-out", d, "-files", str(ctx.scale(75, 600)),
+                    "-rounds", str(ctx.scale(6, 12)), "-strings", str(ctx.scale(4000, 100000))], timeout=3000)
+    ctx.log("corr general", out[-2500:])
+    drv = os.path.join(C.BUILD, "ocaml", "c03x", "driver")
+    if rc != 0 or not os.path.exists(drv):
+        ctx.diag.append("general correspondence could not run: " + out[-300:])
+        return
+    mp, ip, cp = os.path.join(d, "model.txt"), os.path.join(d, "impl.txt"), os.path.join(d, "cases.txt")
+    rc2, out2 = C.sh("%s %s > %s" % (drv, cp, mp), timeout=3000)
+    if rc2 != 0:
+        ctx.diag.append("extracted general specification crashed: " + out2[-300:])
+    label = "general totals/hash spec vs calculate*"
+    ctx.compare(label, mp, ip, cp)
+    try:
+        dist = {}
+        for line in out.splitlines():
+            if ": " in line:
+                k, v = line.rsplit(": ", 1)
+                dist[k] = int(v)
+        ctx.cov["correspondence"][label]["distribution"] = dist
+    except (ValueError, KeyError):
+        pass
+
+
 def oracle(ctx, files, perturb, sub="oracle"):
     d = os.path.join(ctx.rundir, sub)
     os.makedirs(d, exist_ok=True)
@@ -107,12 +146,13 @@ def run(ctx):
                     "harness classification of Go errors into the model's rule enum (field name + error type) and the skeleton extraction in harness/internal/arith"]
     ctx.assumptions += ["only the integrity-protected fields are modelled; every other validation rule (field inclusion, character sets, SEC specific addenda rules, categories) is outside the model: cases where the implementation stops at such a rule are compared on accept/reject of the individual checks only (counted as rule_not_modelled)",
                         "default ValidateOpts (nil); option-relaxed validation is out of scope of C03",
-                        "hash equation is proved for routing numbers stored as 8 digits (known finding entry-hash:rdfi-not-8-chars otherwise); IAT/ADV totals for batches without foreign accounting codes (known finding)",
+                        "general statements (Props/C03General.v): hash = sum of atoi(aba8 RDFI) rem 10^10 for all stored strings and totals for all code mixes are unconditional; the equation with the WRITTEN 8 column field needs 8 or 9 stored digits (known finding entry-hash:rdfi-not-8-chars otherwise) and the declarative totals need batches without foreign accounting codes (known finding; the foreign amount is in neither total)",
                         "File.Validate() on an in-memory file does not re-validate IAT batches and ADV batches (known findings); the theorem for every batch kind is stated for read_validate = what Reader.Read + Validate enforce"]
     if not build(ctx):
         return
     correspondence(ctx, "c03", "validate/checks/primitives", "corr",
                    ["-files", str(ctx.scale(150, 1500)), "-perturb", str(ctx.scale(30, 60)), "-cd", str(ctx.scale(100000, 10000000))])
+    general_correspondence(ctx)
     summ = oracle(ctx, ctx.scale(150, 2000), ctx.scale(40, 80))
     ctx.add_summary(summ, "accepted => arithmetic oracle")
     if ctx.tier == "thorough":
